@@ -58,6 +58,7 @@ GENERIC_ITEMS = [  # compile-valid generic declarations per derive family (deriv
     ("Sum", "#[derive(derive_more::Sum, derive_more::Add)] pub struct G<T>(pub (T));"),
     ("TryFrom", "#[derive(derive_more::TryFrom)] #[try_from(repr)] #[repr(u8)] pub enum G<'a, T: 'a, const N: usize> { A = 1, B, #[allow(dead_code)] C(core::marker::PhantomData<&'a [T; N]>) = 9 }"),
     ("TryInto", "#[derive(derive_more::TryInto)] #[try_into(owned, ref, ref_mut)] pub enum G<'a, const N: usize> { A(&'a str), B([u8; N], i8), C }"),
+    ("TryInto", "#[derive(derive_more::TryInto)] #[try_into(owned, ref, ref_mut)] pub enum G<T: Clone, U> where U: Copy { A(Vec<T>), B(Option<U>, i8), C(u8), D }"),
     ("IsVariant", "#[derive(derive_more::IsVariant)] pub enum G<'a, T, const N: usize> where T: Clone { A(&'a T), B { x: [T; N] }, C }"),
     ("Unwrap", "#[derive(derive_more::Unwrap)] #[unwrap(owned, ref, ref_mut)] pub enum G<'a, T, const N: usize> { A(&'a T), B([T; N], u8), C }"),
     ("TryUnwrap", "#[derive(derive_more::TryUnwrap)] #[try_unwrap(owned, ref, ref_mut)] pub enum G<'a, T, const N: usize> { A(&'a T), B([T; N], u8), C }"),
